@@ -142,6 +142,32 @@ def fp_append_same_suite(ctx, cfg, zf, site):
     return n >= 1, 'all %d call sites append two Generators::create::<CS> results of the same CS (equal base point P1)' % n
 
 
+def _bounded_by_callers(ctx, cfg, z2, op, bi, bound):
+    """the operand is (a length of) a parameter of the specialised function z2: every call site that makes this instantiation bounds it"""
+    prog, eng, za = ctx.prog(cfg), ctx.eng(cfg), ctx.zone(cfg)
+    term = z2.term_op(op)
+    if term is None or term[0] is None:
+        return False
+    path = z2.body.path
+    sites = []
+    for p, b in prog.bodies.items():
+        for cbi, t in b.calls():
+            if local_target(eng, t) == path:
+                sites.append((p, cbi, t))
+    if not sites:
+        return False
+    for p, cbi, t in sites:
+        cz = za.zf(p)
+        za.summary(p)
+        cgm = za.resolve_cargs(cz, t, path)
+        if cgm != z2.cg:
+            continue          # another instantiation
+        ct = za.subst(cz, t, term, tgt=path)
+        if ct is None or not cz.prove_le(ct, (None, bound), cbi):
+            return False
+    return True
+
+
 def fp_i2osp(ctx, cfg, zf, site):
     """i2osp::<N> is only instantiated with N in {2, 8}; for N < 8 the argument is proven <= 2^(8N) - 1 at the call site."""
     prog, eng, za = ctx.prog(cfg), ctx.eng(cfg), ctx.zone(cfg)
@@ -150,18 +176,33 @@ def fp_i2osp(ctx, cfg, zf, site):
         for bi, t in b.calls():
             if local_target(eng, t) == U + 'i2osp':
                 ca = t.get('cargs') or []
-                if len(ca) != 1 or not ca[0].isdigit():
-                    return False, 'i2osp instantiated with non-literal N at %s' % p
-                n = int(ca[0])
-                ns.add(n)
-                if n < 1 or n > 16:
-                    return False, 'i2osp::<%d>' % n
-                if n < 8:
-                    z2 = za.zf(p)
+                if len(ca) != 1:
+                    return False, 'i2osp instantiated without one const argument at %s' % p
+                if ca[0].isdigit():
+                    cases = [(int(ca[0]), za.zf(p), p)]
                     za.summary(p)
-                    term = z2.term_op(t['args'][0])
-                    if not z2.prove_le(term, (None, 2 ** (8 * n) - 1), bi):
-                        return False, 'i2osp::<%d>(%s) at %s L%s: argument not bounded by %d' % (n, tfmt(term), p, t['line'], 2 ** (8 * n) - 1)
+                else:
+                    # called from a function that is itself generic in N (`prefixed::<N>`): one case per instantiation of that function
+                    owner = p if b.kind != 'Closure' else b.j.get('parent_fn', p)
+                    insts = za.instances(owner)
+                    if not insts or any(ca[0] not in i for i in insts):
+                        return False, 'i2osp instantiated with non-literal N at %s (instantiations of the caller not resolvable)' % p
+                    cases = []
+                    for i in insts:
+                        za.summary_spec(owner, i)
+                        cases.append((i[ca[0]], za.zf_spec(p, i) if p == owner else za.zf(p), p))
+                for n, z2, where in cases:
+                    ns.add(n)
+                    if n < 1 or n > 16:
+                        return False, 'i2osp::<%d>' % n
+                    if n < 8:
+                        term = z2.term_op(t['args'][0])
+                        ok = z2.prove_le(term, (None, 2 ** (8 * n) - 1), bi)
+                        if not ok and z2.cg:
+                            # the bound may be a precondition of the generic caller, established by the callers that instantiate it with this N
+                            ok = _bounded_by_callers(ctx, cfg, z2, t['args'][0], bi, 2 ** (8 * n) - 1)
+                        if not ok:
+                            return False, 'i2osp::<%d>(%s) at %s L%s: argument not bounded by %d' % (n, tfmt(term), where, t['line'], 2 ** (8 * n) - 1)
     return bool(ns), 'instantiations N in %s; every N < 8 call has a dominating size guard' % sorted(ns)
 
 
